@@ -213,6 +213,9 @@ type c14 struct {
 	pendS    map[int]uint32
 	lastC    map[int]uint32
 	lastS    map[int]uint32
+	endC     map[int]uint32 // key -> end height (height at registration) of the last dispatch
+	endS     map[int]uint32
+	oldRange bool // next rescan completion answers for the dispatched range only
 	lastSt   map[string]string
 	needNtfy uint32
 	dead     bool
@@ -654,6 +657,7 @@ func (c *c14) opRegConf(k int, numConfs, hint uint32) {
 		if reg.HistoricalDispatch != nil {
 			c.pendC[k] = reg.HistoricalDispatch.StartHeight
 			c.lastC[k] = reg.HistoricalDispatch.StartHeight
+			c.endC[k] = reg.HistoricalDispatch.EndHeight
 		}
 		if reg.Height != c.cur {
 			res += " badheight"
@@ -688,6 +692,7 @@ func (c *c14) opRegSpend(k int, hint uint32) {
 		if reg.HistoricalDispatch != nil {
 			c.pendS[k] = reg.HistoricalDispatch.StartHeight
 			c.lastS[k] = reg.HistoricalDispatch.StartHeight
+			c.endS[k] = reg.HistoricalDispatch.EndHeight
 		}
 		if reg.Height != c.cur {
 			res += " badheight"
@@ -793,14 +798,32 @@ func (c *c14) opDisconnect(h uint32) {
 	c.after(res)
 }
 
+// rescanTo: the last height a completing historical rescan answers for.  A real
+// dispatch covers [StartHeight, EndHeight = height at registration]; the answer
+// may arrive late, after more blocks (possibly containing the transaction) were
+// connected at tip, and is then still only about that range.  Half of the
+// completions answer for the dispatched range, the others for everything up to
+// the current tip.
+func (c *c14) rescanTo(ends map[int]uint32, k int) uint32 {
+	end, ok := ends[k]
+	old := c.oldRange || c.rng.Intn(2) == 0
+	c.oldRange = false
+	if ok && old && end < c.cur {
+		c.stats["rescan_old_range"]++
+		return end
+	}
+	return c.cur
+}
+
 // historical rescan for conf key k finishing now.  lie: report something that
 // is not the active chain's answer.
 func (c *c14) opUpdConf(k int, from uint32, lie bool) {
 	req := c.ensureConfReq(k)
 	var det *TxConfirmation
 	arg := "none"
+	to := c.rescanTo(c.endC, k)
 	b, idx, ok := c.txOnChain(k)
-	if ok && b.height < from {
+	if ok && (b.height < from || b.height > to) {
 		ok = false
 	}
 	if lie {
@@ -835,7 +858,7 @@ func (c *c14) opUpdConf(k int, from uint32, lie bool) {
 		return "ok"
 	})
 	delete(c.pendC, k)
-	c.pf("updc %d from=%d %s => %s", k, from, arg, res)
+	c.pf("updc %d from=%d to=%d %s => %s", k, from, to, arg, res)
 	c.after(res)
 }
 
@@ -843,8 +866,9 @@ func (c *c14) opUpdSpend(k int, from uint32, lie bool) {
 	req := c.ensureSpendReq(k)
 	var det *SpendDetail
 	arg := "none"
+	to := c.rescanTo(c.endS, k)
 	b, sp, idx, ok := c.opOnChain(k)
-	if ok && b.height < from {
+	if ok && (b.height < from || b.height > to) {
 		ok = false
 	}
 	if lie {
@@ -886,7 +910,7 @@ func (c *c14) opUpdSpend(k int, from uint32, lie bool) {
 		return "ok"
 	})
 	delete(c.pendS, k)
-	c.pf("upds %d from=%d %s => %s", k, from, arg, res)
+	c.pf("upds %d from=%d to=%d %s => %s", k, from, to, arg, res)
 	c.after(res)
 }
 
@@ -963,6 +987,8 @@ func (c *c14) oneCase(kind string, nops int) {
 	c.spendIDs = map[uint64]int{}
 	c.pendC, c.pendS = map[int]uint32{}, map[int]uint32{}
 	c.lastC, c.lastS = map[int]uint32{}, map[int]uint32{}
+	c.endC, c.endS = map[int]uint32{}, map[int]uint32{}
+	c.oldRange = false
 	c.lastSt = map[string]string{}
 	c.needNtfy = 0
 	c.dead = false
@@ -1231,6 +1257,10 @@ func (c *c14) story() {
 			}
 		}
 	}
+	if c.rng.Intn(3) == 0 {
+		c.storyLateAnswer(conf, k)
+		return
+	}
 	switch c.rng.Intn(3) {
 	case 0:
 		// register, cancel, rescan completes, reorg, register again
@@ -1267,6 +1297,77 @@ func (c *c14) story() {
 	if !c.dead && c.rng.Intn(2) == 0 {
 		upd()
 	}
+}
+
+// storyLateAnswer: a rescan is dispatched for [hint, cur]; the transaction (a
+// spender) is then mined at tip, more blocks follow, and only then does the
+// rescan answer "not found" for its old range.
+func (c *c14) storyLateAnswer(conf bool, k int) {
+	// needs the tx / a spender off chain
+	want := -1
+	if conf {
+		if _, _, ok := c.txOnChain(k); ok {
+			return
+		}
+		want = k
+	} else {
+		if _, _, _, ok := c.opOnChain(k); ok {
+			return
+		}
+		for t, sps := range c14TxSpends {
+			for _, o := range sps {
+				if o == k {
+					if _, _, on := c.txOnChain(t); !on {
+						want = t
+					}
+				}
+			}
+		}
+	}
+	if want < 0 || c.cur == 0 {
+		return
+	}
+	for _, o := range c14TxSpends[want] {
+		if _, _, _, ok := c.opOnChain(o); ok {
+			return
+		}
+	}
+	hint := uint32(1)
+	if c.rng.Intn(2) == 0 {
+		hint = c.cur
+	}
+	if conf {
+		c.opRegConf(k, 1+uint32(c.rng.Intn(2)), hint)
+	} else {
+		c.opRegSpend(k, hint)
+	}
+	if c.dead {
+		return
+	}
+	c.opConnect([]int{want})
+	if !c.dead {
+		c.opNotify(c.cur)
+	}
+	for i := c.rng.Intn(3); i > 0 && !c.dead && c.cur < 12; i-- {
+		c.opConnect(nil)
+		if !c.dead {
+			c.opNotify(c.cur)
+		}
+	}
+	if c.dead {
+		return
+	}
+	c.oldRange = true
+	if conf {
+		if from, ok := c.pendC[k]; ok {
+			c.opUpdConf(k, from, false)
+		}
+	} else {
+		if from, ok := c.pendS[k]; ok {
+			c.opUpdSpend(k, from, false)
+		}
+	}
+	c.oldRange = false
 }
 
 // storyInterleave: client A waits for N confirmations of a transaction that
